@@ -677,6 +677,18 @@ nni_aio_expire_loop(void *arg)
 
 		for (uint32_t i = 0; i < exp_idx; i++) {
 			aio = expires[i];
+
+			// The lock was dropped while we called the cancel
+			// function of an earlier member of this batch.  In
+			// the meantime this operation may have completed,
+			// and a new one (with a new deadline) may even have
+			// been started on the same aio.  Only expire what is
+			// still overdue; otherwise just release our hold.
+			if ((!q->eq_stop) && (aio->a_expire >= now)) {
+				aio->a_expiring = false;
+				continue;
+			}
+
 			if (q->eq_stop) {
 				rv          = NNG_ESTOPPED;
 				aio->a_stop = true;
